@@ -107,7 +107,7 @@ var floors = map[string][]string{
 	"C03": {"history:rotation", "history:large-offsets", "resumed", "chain:rotate-between", "label:offset>=2^31"},
 	"C04": {"fault:fin", "fault:rst", "fault:err", "fault:eof", "fault:cancel-master", "fault:cancel-handler", "fault:handler-err", "fault:mapper-err", "fault:mapper-count", "fault:inject-rowsquery", "fault:inject-invalid", "fault:short0", "fault:badseq", "fault:connect-refused", "fault:read-error", "fault:inject-baddecode-before", "fault:inject-baddecode-write"},
 	"C05": {"reader:network", "reader-busy-at-stop", "handler-at-stop:blocked", "handler-at-stop:slow", "quiescent", "cause:cancel", "cause:handler", "cause:preconnect", "cause:transport", "cause:master-err", "cause:eof", "cause:undecodable-event", "cell:cancel/reader=network", "long-history-with-packets>4096"},
-	"C06": {"cause:cancel", "cause:eof", "cause:master-err", "cause:transport", "cause:handler", "cause:mapper", "cause:gate-reject", "cause:unsupported-event", "cause:undecodable-event", "cause:preconnect", "err-message-carried", "error-call:immediately", "error-call:after-quiescence"},
+	"C06": {"cause:cancel", "cause:eof", "cause:master-err", "cause:transport", "cause:handler", "cause:mapper", "cause:gate-reject", "cause:unsupported-event", "cause:undecodable-event", "cause:preconnect", "err-message-carried", "error-call:immediately", "error-call:after-quiescence", "deadline-passed-between-end-and-Error()"},
 	"C07": {"attempt:position-set", "attempt:stored-position", "server-id>=2^31", "set-rejected", "stored-position-after-stream", "failed-before-dump:dump-write-fail", "failed-before-dump:set-close"},
 	"C08": {"mode:observe", "mode:scribble"},
 	"C15": {"stream:id-rebound-after-restart", "stream:id-rebound-to-name-differing-in-case-only", "stream:id-reannounced-with-other-column-count", "stream:hundreds-of-table-ids"},
